@@ -451,8 +451,17 @@ func (e *SpecEnv) call(n SCall) *Val {
 			return &Val{K: VInt, T: v.Len}
 		case VStr:
 			return &Val{K: VInt, T: StrLen(v.T)}
+		case VCoins:
+			return &Val{K: VInt, T: CoinsLen(v.T)}
 		}
 		sfail("len of kind %d", v.K)
+	case "denomAt":
+		// denomAt(coins, i): the denomination of the i-th entry of a Coins value seen as a slice
+		v := e.eval(n.Args[0])
+		if v.K != VCoins {
+			sfail("denomAt(coins, i)")
+		}
+		return &Val{K: VStr, T: DenomAt(v.T, e.evalInt(n.Args[1]))}
 	case "truncInt": // Dec -> Int truncation toward zero
 		return &Val{K: VInt, T: TruncP(e.evalInt(n.Args[0]))}
 	case "chopRound":
